@@ -178,6 +178,11 @@ func (d *designator) eval(n *xp10.Node, base []mock.Elem) (xp10.Value, error) {
 		if len(node) > 0 && tree.EmptyNames[node[len(node)-1].Name] {
 			return xp10.Str(""), nil
 		}
+		if len(node) > 0 {
+			if v, ok := tree.NumNames[node[len(node)-1].Name]; ok {
+				return xp10.Num(v), nil
+			}
+		}
 		return xp10.Str(id), nil
 	}
 	if n.Op == "func" && (n.Val == "current" || n.Val == "deref") {
@@ -256,6 +261,7 @@ func pathShape(src string) string {
 var tree = func() *mock.Tree {
 	t := mock.NewTree()
 	t.EmptyNames = map[string]bool{"e": true} // a leaf named e has the empty string as value
+	t.NumNames = map[string]float64{"n": 7}   // a leaf named n has the NUMBER 7 as value (typed data tree)
 	return t
 }()
 
@@ -363,7 +369,9 @@ func check(src string, ci int, ss *session) (vs []engine.Violation, outcome stri
 // ---------------------------------------------------------------- generator
 
 // operands with the empty string as value: the empty literal, a function result, paths to the leaf e
-var operandSrc = []string{"'v'", "7", "concat('x', 'y')", "/x/y", "current()/../x", "../x", "../../x/y", "''", "substring-after('ab', 'c')", "../e", "/x/e", "current()/../e"}
+var operandSrc = []string{"'v'", "7", "concat('x', 'y')", "/x/y", "current()/../x", "../x", "../../x/y", "''", "substring-after('ab', 'c')", "../e", "/x/e", "current()/../e",
+	// number-valued operands that contain a path: a leaf whose value is a number, a function of a path, arithmetic over a path
+	"../n", "current()/../n", "string-length(../x)", "current()/../n + 1"}
 var keyNames = []string{"k", "j", "p:k"}
 
 func stepForms(maxPreds int, full bool) []string {
@@ -376,7 +384,7 @@ func stepForms(maxPreds int, full bool) []string {
 			}
 		}
 		if nm == "a" || full {
-			ops2 := []string{"'v'", "current()/../x", "../x", "''", "../e"}
+			ops2 := []string{"'v'", "current()/../x", "../x", "''", "../e", "../n"}
 			if maxPreds >= 2 {
 				// (every operand kind, two of the five empty-valued ones: the full square of operandSrc
 				// does not finish within the thorough budget)
@@ -401,6 +409,9 @@ func run(c *engine.Ctx) {
 	}
 	forms := stepForms(maxPreds, false)
 	embeds := []string{"%", "% = 'v'", "string(%)", "not(%)"}
+	if c.Quick() {
+		embeds = embeds[:2] // (the function embeddings only in the thorough tier)
+	}
 	exec := func(src string) {
 		if !c.Owns(src) {
 			return
